@@ -65,10 +65,11 @@ CLAIMED["C29"] = dict(
     text="_lookup_symbol_in_direct_children (loop invariant: no earlier child has the name), _lookup_symbol_ref_in (the nesting rules: only "
          "through symbol tables, private symbols refused, for 0..3/0..5 nested components), SymbolTable.lookup_symbol_in / "
          "get_nearest_symbol_table / lookup_nearest_symbol_from and the cached SymbolTable.__init__/lookup (cached == direct when child names are "
-         "unique) are extracted from /repo and verified against the spec functions of the statement for unbounded child lists. Plus an "
+         "unique) are extracted from /repo and verified against the spec functions of the statement for unbounded child lists; traits.SymbolTable.verify (what 'verified module' "
+         "means for the cache clause) accepts only if no two children define the same symbol - exactly the uniqueness hypothesis of the cache-agreement proof. Plus an "
          "exhaustive bounded stand-in over generated nested modules through utils, SymbolTableCollection and traits.SymbolTable.lookup_symbol.",
     note="Assumed: block.ops abstracted as the child sequence (C01); NAME/ISTABLE/PRIVATE/PARENTOP uninterpreted (trait lookup not under contract); "
-         "SymbolTableCollection and traits.SymbolTable.lookup_symbol bounded only; partial correctness; pyvc + z3 trusted.",
+         "SymbolTableCollection and traits.SymbolTable.lookup_symbol bounded only (a genuine defect of the latter with unregistered ancestors was found there and repaired); partial correctness; pyvc + z3 trusted.",
     design="§4 C29",
     technique="contract-based deductive verification (loop invariants over a ghost child sequence, modular callee contracts), SMT-discharged; bounded exhaustive stand-in",
 )
@@ -96,11 +97,13 @@ CLAIMED["C08"] = dict(
     text="FloatData.__eq__/__hash__ are extracted from /repo and verified on 64-bit payload patterns: equal exactly when the bit patterns are "
          "equal (hence reflexive, symmetric, transitive; 0.0 != -0.0; NaNs by payload) and the hash is a function of the pattern alone. "
          "IntegerType.normalized_value: per width/signedness/truncate flag the stored value is a canonical function of the bit pattern (same "
-         "pattern -> same value, different patterns -> different values). OperationInfo.__eq__ (CSE key): equal keys have equal hashes. A scan "
+         "pattern -> same value, different patterns -> different values); IntegerAttr.__init__ stores that normalised value WHATEVER form the arguments take "
+         "(int or IntAttr value; int width, IntegerType or IndexType), so equal parameters give equal attributes. OperationInfo.__eq__ (CSE key): equal keys have equal hashes. A scan "
          "lists every Attribute subclass with a hand-written __eq__/__hash__ (must be under contract); bounded stand-ins exercise a pool of "
          "builtin attribute values (symmetry, transitivity, eq => hash, rebuilt copies equal) and float bit patterns.",
     note="Assumed: dataclass-generated field-wise eq/hash for all other attributes (CPython); payload types have consistent ==/hash; CPython "
-         "hash(float)/hash(bytes) model; IntegerAttr.__init__ wiring and UnregisteredAttr class cache only bounded/not covered; pyvc + z3 trusted.",
+         "hash(float)/hash(bytes) model; IntAttr / IntegerType / ParametrizedAttribute.__init__ are trusted models in the IntegerAttr.__init__ unit; the UnregisteredAttr class "
+         "cache and the dense-attribute payload construction are bounded only; pyvc + z3 trusted.",
     design="§4 C08",
     technique="contract-based deductive verification (bit-vector payload model, SMT) + override scan + bounded stand-in",
 )
@@ -112,11 +115,13 @@ CLAIMED["C13"] = dict(
          "RemoveUnusedOperations.match_and_rewrite erases only under that predicate, only attached ops, only through rewriter.erase; LiveSet "
          "is_live/set_live/propagate_op_liveness are monotone and keep every observable op and every op with a live user, and liveness is propagated into every "
          "region of an op that ends up live; LiveSet.delete_dead erases an operation only if it is not live (and only after the listener was told), erases a block only if it is not the entry "
-         "block and holds no live operation, cleans the regions of every live operation recursively and sets `changed` whenever it erases. The pass-level "
+         "block and holds no live operation, cleans the regions of every live operation recursively and sets `changed` whenever it erases; propagate_op_liveness and "
+         "propagate_region_liveness are verified against each other's discharged contracts (the live set only grows, `changed` is raised whenever something becomes live); "
+         "traits.get_effects and RecursiveMemoryEffect.get_effects return a set only if every effect interface / every nested op reports known effects. The pass-level "
          "clauses (exact remaining ops and blocks = oracle liveness/reachability, nothing removable left, IR consistent) are decided by a "
          "bounded stand-in on generated CFG regions for region_dce and the dce pattern pass.",
-    note="Assumed: trait declarations are truthful; get_effects bound as an opaque expression; PatternRewriter.erase / propagate_region_liveness "
-         "trusted callee contracts; the fixpoint loop of region_dce (iteration to `changed == False`) bounded only; pyvc + z3 trusted.",
+    note="Assumed: trait declarations are truthful; each effect interface's own answer is uninterpreted; PatternRewriter.erase is a trusted callee contract; "
+         "PostOrderIterator(first) is read as C24's post-order sequence; the fixpoint loop of region_dce (iteration to `changed == False`) bounded only; pyvc + z3 trusted.",
     design="§4 C13",
     technique="contract-based deductive verification of the removability predicates and liveness steps (SMT) + bounded stand-in with independent liveness oracle",
 )
@@ -173,7 +178,8 @@ CLAIMED["C19"] = dict(
          "register is no longer available, infinite registers get strictly increasing indices; ValueAllocator.allocate_value / free_value are under contract on top "
          "of it (an unallocated value gets a register popped from the pool - hence held by no live value -, an allocated one is left alone, free_value "
          "returns exactly the value's own allocatable register), and the per-op step HasRegisterConstraints.allocate_registers (for ops with <= 3 results: no register of a "
-         "result's class is released before that result has its register, every result ends allocated). Exploration is the honest level for the property as a whole.",
+         "result's class is released before that result has its register, every result ends allocated) and the context manager RegisterStack.reserve_registers (balanced "
+         "reservation counts; the with-body is modelled at the yield). Exploration is the honest level for the property as a whole.",
     note="Bounded stand-in for the interference statement, never counted as proved; the remaining ValueAllocator methods (allocate_values_same_reg), BlockNaiveAllocator, the overriding "
          "allocate_registers of loop / call ops and the x86 allocator are not under contract; allocate_registers is bounded in the number of in/out values (loops unrolled); one pool at a time in the RegisterStack proofs.",
     design="§4 C19",
